@@ -47,7 +47,7 @@ fn leaf_of_size(n: usize) -> M { M::Leaf(V::Bytes((0..n).map(|i| (i * 7) as u8).
 
 pub fn run(ctx: &Ctx) -> i32 {
     let th = ctx.tier.thorough();
-    let max_size = if th { 102_400 } else { 2_048 };
+    let max_size = if th { 102_400 } else { 16_384 };
     let scr = scripts();
     // --- size-based salting over every serialised size
     let acc = (0..max_size).into_par_iter().map(|n| {
